@@ -560,6 +560,136 @@ def cellOK (w : Want) (old new : TCell) : Bool :=
      | .chars bs => lineGlyphOK m bs
      | _ => false) && penSame new.pen p && new.writes == old.writes + 1
 
+/-! ## The library's mock terminal (src/mockterm.c), second configuration of the correspondence check
+
+  `MockTerm` mirrors `mtd_goto_abs`, `mtd_print`, `mtd_erasech` and `mtd_chpen` statement by statement: goto is clamped to
+  the screen, `erasech` moves the cursor unless `moveend == TICKIT_NO`, a cell holds the bytes of one grapheme (`" "`
+  after an erase, NULL for the second column of a double-width character) and a clone of the driver's pen.  `mtd_print`
+  writes `linecells[cols]` when a double-width character starts in the last column: that heap overflow is the `crashed`
+  flag (known finding `mockterm_wide_at_edge`).  No theorem is about this model; the specification `want`/`cellOK` is
+  evaluated on what the real mock terminal displays. -/
+
+/-- `MockTermCell`: `str` (`none` = NULL) and pen. -/
+structure MCell where
+  str : Option (List UInt8) := some [0x20]
+  pen : Pen := {}
+deriving DecidableEq, Repr, Inhabited
+
+structure MockTerm where
+  lines : Int
+  cols : Int
+  cells : Int → Int → MCell
+  line : Int := -1
+  col : Int := -1
+  /-- `tt->pen` (src/term.c); the driver's `mtd->pen` is a copy of the `final` pen, i.e. the same attributes -/
+  pen : Pen := {}
+  /-- `mtd_print` wrote past the end of a line -/
+  crashed : Bool := false
+  /-- `mtd_print` does not terminate (a byte string the width counter rejects) -/
+  hung : Bool := false
+
+namespace MockTerm
+
+/-- `BOUND(var, min, max)`. -/
+def bound (v lo hi : Int) : Int :=
+  let v := if v < lo then lo else v
+  if v > hi then hi else v
+
+/-- `mtd_goto_abs`. -/
+def goto (t : MockTerm) (line col : Int) : MockTerm :=
+  { t with line := bound line 0 (t.lines - 1), col := bound col 0 (t.cols - 1) }
+
+/-- `tickit_term_setpen` + `mtd_chpen`. -/
+def setpen (t : MockTerm) (p : Pen) : MockTerm := { t with pen := termSetpen t.pen p }
+
+/-- `mtd_erasech`. -/
+def erasech (t : MockTerm) (count : Int) (m : MaybeBool) : MockTerm :=
+  let right := bound (t.col + count) 0 t.cols
+  let t' : MockTerm :=
+    { t with cells := fun l c =>
+        if l = t.line ∧ t.col ≤ c ∧ c < right then { str := some [0x20], pen := t.pen } else t.cells l c }
+  match m with
+  | .no => t'
+  | _ => { t' with col := right }
+
+/-- The `while(pos.bytes < len)` loop of `mtd_print`; `lim` is `limit.columns`. -/
+def printLoop (bs : List UInt8) : Nat → MockTerm → Utf8.StrPos → Int → MockTerm
+  | 0, t, _, _ => { t with hung := true }
+  | fuel + 1, t, pos, lim =>
+    if ¬ pos.bytes < bs.length then { t with col := pos.columns }
+    else
+      let lim := lim + 1
+      let pos' := (Utf8.ncountmore bs (some bs.length) pos (some ⟨bs.length, -1, -1, lim⟩)).pos
+      if pos'.columns = pos.columns then printLoop bs fuel t pos' lim
+      else
+        -- "Wrap but don't scroll"
+        let wrapped := decide (pos.columns ≥ t.cols)
+        let line := if wrapped ∧ t.line < t.lines - 1 then t.line + 1 else t.line
+        let sc := if wrapped then 0 else pos.columns
+        let slice := (bs.drop pos.bytes.toNat).take (pos'.bytes - pos.bytes).toNat
+        let t' : MockTerm :=
+          { t with
+            line := line
+            cells := fun l c =>
+              if l = line ∧ c = sc then { str := some slice, pen := t.pen }
+              else if l = line ∧ sc < c ∧ c < pos'.columns ∧ c < t.cols then { str := none, pen := t.pen }
+              else t.cells l c
+            -- "Empty out the other cells for doublewidth": `linecells[start.columns]` up to `pos.columns − 1`
+            crashed := t.crashed || decide (sc + 1 < pos'.columns ∧ pos'.columns > t.cols) || decide (sc < 0) }
+        printLoop bs fuel t' pos' lim
+
+/-- `mtd_print(str, len)`. -/
+def print (t : MockTerm) (bs : List UInt8) : MockTerm :=
+  printLoop bs (2 * bs.length + 2) t { columns := t.col } t.col
+
+/-- One request. -/
+def step (t : MockTerm) : Req → MockTerm
+  | .goto l c => t.goto l c
+  | .setpen p => t.setpen p
+  | .print s start len => t.print ((s.drop start).take len)
+  | .erasech n m => t.erasech n m
+
+def run (t : MockTerm) : List Req → MockTerm
+  | [] => t
+  | r :: rs => run (t.step r) rs
+
+/-- `tickit_mockterm_new(lines, cols)`. -/
+def new (lines cols : Int) : MockTerm := { lines := lines, cols := cols, cells := fun _ _ => {} }
+
+/-- Re-tabulate (execution speed only). -/
+def compact (t : MockTerm) : MockTerm :=
+  let tab : Array (Array MCell) :=
+    Array.ofFn (n := t.lines.toNat) fun l => Array.ofFn (n := t.cols.toNat) fun c => t.cells l.val c.val
+  let old := t.cells
+  { t with cells := fun l c =>
+      if 0 ≤ l ∧ 0 ≤ c then
+        match tab[l.toNat]? with
+        | some row =>
+          match row[c.toNat]? with
+          | some x => x
+          | none => old l c
+        | none => old l c
+      else old l c }
+
+end MockTerm
+
+/-- What the mock terminal shows for a glyph. -/
+def mockStr : Glyph → Option (List UInt8)
+  | .blank => some [0x20]
+  | .chars bs => some bs
+  | .wcont => none
+
+/-- `cellOK` for the mock terminal, which does not count writes: glyph and rendition. -/
+def mcellOK (w : Want) (old new : MCell) : Bool :=
+  match w with
+  | .keep => new == old
+  | .unspecified => true
+  | .glyph g p => new.str == mockStr g && penSame new.pen p
+  | .line m p =>
+    (match new.str with
+     | some bs => lineGlyphOK m bs
+     | none => false) && penSame new.pen p
+
 /-! ## Well-formedness of a buffer as far as the flush looks at it (decidable form)
 
   The Prop form (`FlushWFP`, Proof/RBFlushSpec.lean) is the hypothesis of `flush_spec`; this Bool form is proved to imply
